@@ -18,6 +18,7 @@ import json
 import os
 import random
 import re
+import unicodedata
 
 import vlib
 
@@ -54,7 +55,7 @@ EXTRA_FORMS = ["extra", "Extra", "EXTRA", "-extra", "extra'", "e_x_t_r_a", "extr
 SPECIAL = ["async", "+1", "-1", "", "x", "X", "_", "__", "'", "''", "-", "1", "+", "+1+1", "-1-1", "async_", "Async",
            "XMLHttpRequest", "FIELD_NAME11", "foo-bar", "foo_bar", "fooBar", "FooBar", "foo bar", "foo", "Foo",
            "\u03a3\u03a3", "a\u03a3", "\u03a3a", "X\u03a3X\u03a3 ba\ufb04e", "stra\u00dfe", "STRASSE", "self_", "Self_",
-           "type", "type_", "r#type", "a'", "a", "A", "1a", "x1a", "String", "Vec", "Option"] + EXTRA_FORMS
+           "type", "type_", "r#type", "a'", "a'b", "a", "A", "1a", "x1a", "String", "Vec", "Option"] + EXTRA_FORMS
 # scalars the model consults or emits by itself (prefix, separators, final sigma, special-case outputs)
 FIXED_CHARS = "xX_-'\u03c2\u03a3" + "async_plus1minus1"
 
@@ -340,7 +341,14 @@ class Pipe:
                         self.finding("C08-F3", {"properties": names, "additionalProperties": True, "duplicate_field": d})
                 else:
                     self.bad("duplicate field outside the listed classes", case, res, field=d, idents=idents)
+        self.nfc(idents, names, "fields")
         return [(f["name"], serde_rename(f["serde"])) for f in plain]
+
+    def nfc(self, idents, names, what):
+        """rustc compares identifiers after NFC normalisation (RFC 2457)"""
+        n = [unicodedata.normalize("NFC", i) for i in idents]
+        if len(set(n)) != len(set(idents)):
+            self.finding("C08-F4", {"names": names, "identifiers": idents, "scope": what})
 
     def check_enum(self, values, case, res):
         self.stats["enum"] += 1
@@ -359,6 +367,7 @@ class Pipe:
         idents = [v["name"] for v in vs]
         if len(set(idents)) != len(idents):
             self.bad("duplicate variant identifiers", case, res, idents=idents)
+        self.nfc(idents, values, "variants")
         wires = [(serde_rename(v["serde"]) if serde_rename(v["serde"]) is not None else v["name"]) for v in vs]
         if wires != list(values):
             self.bad("variant wire names differ from the enum values", case, res, wires=wires, values=list(values))
@@ -385,6 +394,7 @@ class Pipe:
                     self.finding("C08-F2", {"definitions": names, "duplicate_item": d})
                 else:
                     self.bad("duplicate item outside the listed classes", case, res, item=d, idents=idents)
+        self.nfc(idents, names, "items")
         return sorted(idents)
 
 
@@ -449,9 +459,9 @@ def run(ctx):
     rnd = random.Random(ctx.seed * 31 + 5)
 
     # pair partners (used by the pipeline section; they need the class table and impl sanitize as well)
-    pair_base = dedupe(corpus_strings + SPECIAL + KEYWORDS + rnd.sample(small, min(len(small), 120 if ctx.tier == "quick" else 1500))
-                       + rnd.sample(short, min(len(short), 80 if ctx.tier == "quick" else 600))
-                       + rnd.sample(g_rand, min(len(g_rand), 50 if ctx.tier == "quick" else 800)))
+    pair_base = dedupe(corpus_strings + SPECIAL + KEYWORDS + rnd.sample(small, min(len(small), 120 if ctx.tier == "quick" else 600))
+                       + rnd.sample(short, min(len(short), 80 if ctx.tier == "quick" else 300))
+                       + rnd.sample(g_rand, min(len(g_rand), 50 if ctx.tier == "quick" else 300)))
     pairs = []
     for s in pair_base:
         ps = partner_strings(s, rnd)
@@ -476,6 +486,14 @@ def run(ctx):
            for s in all_strings if impl[(s, False)]["r"] == "ok" and impl[(s, True)]["r"] == "ok"}
 
     ctx.log("implementation sanitize on %d strings done" % len(all_strings))
+    if mutate == "drop-keyword-suffix":
+        # emulates util.rs:764-768 returning `out` unconditionally
+        for k in ("self", "type", "crate"):
+            impl[(k, False)].update({"ident": cps(k), "rename": None, "syn_out": False})
+    if mutate == "keep-apostrophe":
+        # emulates util.rs:752 without `.replace("'", "")` (property still holds; only the tie breaks)
+        impl[("a'b", False)].update({"ident": cps("a_b")})
+        impl[("a'b", True)].update({"ident": cps("AB")})
     # direct: every sanitised output is accepted by syn, recase wire exact
     direct = []
     for (s, p), r in impl.items():
@@ -500,8 +518,6 @@ def run(ctx):
         r = impl[(s, p)]
         if r["r"] != "ok":
             return r["r"]
-        if mutate == "impl-rename" and s == "a":
-            return show(r["ident"]) + "|+" + show(cps(s)) + "|?"
         return "%s|%s|%s" % (show(r["ident"]), "-" if r["rename"] is None else "+" + show(r["rename"]),
                              ("T" if r["syn_in"] else "F") if xc_all(s) else "?")
 
@@ -521,8 +537,6 @@ def run(ctx):
             raise RuntimeError(out_m[-2000:])
         mres = eval_shards("c08s", shards + shards_r)
         for (s, p), m in zip(items + items_r, mres):
-            if mutate == "model-nosuffix" and s == "self" and not p:
-                m = m.replace(" 95|", "|")
             model[(s, p)] = m
             e = impl_str(s, p)
             mm = m if xc_all(s) else m[:-1] + "?"
@@ -585,6 +599,30 @@ def run(ctx):
         pcases.append(("defs", grp, defs_case(grp)))
     pres = vlib.run_vh("gen", [c for _, _, c in pcases], timeout=3000)
     ctx.log("vh gen on %d schemas done" % len(pcases))
+    if mutate:
+        for (kind, names, case), res in zip(pcases, pres):
+            try:
+                its = top_items(res)
+            except Exception:  # noqa
+                its = []
+            if mutate == "always-rename" and kind == "props":
+                # emulates recase returning Some(input) unconditionally
+                for it in its:
+                    if it["name"] == "T" and it["kind"] == "struct":
+                        for f, n in zip(sorted(it["fields"]["fields"], key=lambda f: f["name"]), sorted(names)):
+                            if serde_rename(f["serde"]) is None:
+                                f["serde"].append(["rename", f["name"]])
+            if mutate == "no-x-fallback" and kind == "enum" and names == ["a", "a_"]:
+                # emulates type_entry.rs:258-268 removed: first-pass collision panics at once
+                res.clear()
+                res.update({"steps": [{"r": "panic", "msg": "Failed to make unique variant names for [a,a_]"}]})
+            if mutate == "no-unique-check" and kind == "enum" and names == ["a", "A"]:
+                # emulates type_entry.rs:272-287 removed: duplicates are emitted
+                res.clear()
+                res.update({"steps": [{"r": "ok", "id": 0}], "render": {"r": "ok", "scan": {"items": [
+                    {"mod": "", "kind": "enum", "name": "T", "variants": [
+                        {"name": "A", "serde": [["rename", "a"]], "fields": {"k": "unit"}},
+                        {"name": "A", "serde": [], "fields": {"k": "unit"}}]}]}}})
     observed = []
     for (kind, names, case), res in zip(pcases, pres):
         if kind in ("props", "propsx"):
@@ -632,8 +670,6 @@ def run(ctx):
                 else:
                     e = "ok:" + fmt_pairs(o)
                 mm = m
-                if mutate == "model-nofallback" and mm.startswith("ok:") and "88" in mm and names == ["a_b", "a-b", "ab"]:
-                    mm = "panic"
             else:
                 if o is None:
                     e = "rejected"
